@@ -2,4 +2,4 @@ SPECIFICATION FairSpec
 INVARIANTS TriggerCleanupAtMostOnce TriggerCleanupOnlyAfterOutstandingNext ResultAtMostOnce ResultAfterCleanup Finally
 PROPERTY Termination
 CHECK_DEADLOCK FALSE
-CONSTANT Mut = "none"
+CONSTANT Mut = "k3_ignore"
